@@ -262,6 +262,18 @@ def write_replay(prop: str, seed: int, kind: str, payload: Any, tag: str = "") -
     return os.path.relpath(path, VERIF)
 
 
+def _raised_in_repo(tb: str) -> bool:
+    """does the innermost frame of the traceback lie in the checked product tree (not in the harness / stdlib)?"""
+    from .boot import REPO
+    root = os.path.realpath(REPO) + os.sep
+    frames = [l.strip() for l in tb.splitlines() if l.strip().startswith('File "')]
+    own = [f for f in frames if "/lib/python" not in f and "site-packages" not in f]
+    if not own:
+        return False
+    last = own[-1].split('"')[1]
+    return os.path.realpath(last).startswith(root)
+
+
 def run_check(prop: str, tier: str, seed: int, replay_path: str | None = None) -> int:
     t0 = time.time()
     boot()
@@ -336,7 +348,19 @@ def run_check(prop: str, tier: str, seed: int, replay_path: str | None = None) -
     exit_code = 0
     unlisted = _unlisted(prop, outcome)
     known = {k["signature"]: k for k in load_known() if k["property"] == prop and k.get("status", "open") == "open"}
-    if harness_error is not None:
+    if harness_error is not None and (t_fail or _raised_in_repo(harness_error)):
+        # the correspondence could not be run at all: either a proof obligation was already broken, or the exception
+        # comes out of the implementation's own code (the harness' assumptions about it no longer hold).  That is a
+        # broken tie, not a crash of the machinery: report it like any other unproved state.
+        sys.stderr.write(harness_error)
+        payload = {"theorem_broken": t_fail, "divergence": [],
+                   "correspondence_broken": harness_error.strip().splitlines()[-1][:300],
+                   "traceback_tail": harness_error.strip().splitlines()[-14:],
+                   "note": "the correspondence run stopped with an exception; no failing input could be searched for"}
+        path = write_replay(prop, seed, "theorem" if t_fail else "correspondence", payload, tag="unproved")
+        lines.append(f"VIOLATION property={prop} replay={path} no-failing-input-found")
+        exit_code = 1
+    elif harness_error is not None:
         sys.stderr.write(harness_error)
         lines.append(f"HARNESS-ERROR property={prop}")
         exit_code = 2
